@@ -640,6 +640,7 @@ func selftestMain() int {
 				}
 				if x != y {
 					fmt.Printf("NONDETERMINISM scenario=%s run=%d GOMAXPROCS=1:%s GOMAXPROCS=%d:%s\n", name, i, x, procs, y)
+					explainDivergence(name, i, procs)
 					ok = false
 					break
 				}
@@ -764,3 +765,58 @@ func attributeRaces(prop string, ck chunk, runs []*RunResult) (int, []string) {
 // own. nats.go keeps a global pool of timers; a timer created in one synctest
 // bubble must not be used in another.
 func isolated(scenario string) bool { return scenario == "tierb" }
+
+// explainDivergence re-runs one index verbosely at GOMAXPROCS 1 and procs and
+// prints where the two traces part (diagnostics for the self-test only).
+func explainDivergence(name string, index, procs int) {
+	trace := func(p int) []string {
+		cmd := exec.Command(os.Args[0], "-test.run", "^TestSim$", "-test.timeout", "0", "-sim.role=worker", "-sim.scenario="+name, "-sim.verbose",
+			"-sim.base="+strconv.FormatUint(*fBase, 10), "-sim.from="+strconv.Itoa(index), "-sim.n=1", "-sim.out="+os.DevNull)
+		cmd.Env = append(os.Environ(), "GOMAXPROCS="+strconv.Itoa(p))
+		var stderr bytes.Buffer
+		cmd.Stderr = &stderr
+		cmd.Run()
+		var out []string
+		for _, l := range strings.Split(stderr.String(), "\n") {
+			if strings.HasPrefix(l, "  ") || strings.HasPrefix(l, "CASE ") {
+				out = append(out, l)
+			}
+		}
+		return out
+	}
+	a, b := trace(1), trace(procs)
+	for i := 0; i < len(a) || i < len(b); i++ {
+		var x, y string
+		if i < len(a) {
+			x = a[i]
+		}
+		if i < len(b) {
+			y = b[i]
+		}
+		if x == y {
+			continue
+		}
+		from := i - 8
+		if from < 0 {
+			from = 0
+		}
+		if len(a) > 0 && strings.HasPrefix(a[0], "CASE ") {
+			fmt.Printf("  %s\n", a[0])
+		}
+		for j := from; j < i; j++ {
+			fmt.Printf("  both      %s\n", a[j])
+		}
+		for j := i; j < i+6; j++ {
+			if j < len(a) {
+				fmt.Printf("  procs=1   %s\n", a[j])
+			}
+		}
+		for j := i; j < i+6; j++ {
+			if j < len(b) {
+				fmt.Printf("  procs=%-3d %s\n", procs, b[j])
+			}
+		}
+		return
+	}
+	fmt.Printf("  (the run alone, index %d, is identical at both settings: %d trace lines; the difference needs the runs before it)\n", index, len(a))
+}
